@@ -91,8 +91,6 @@ type hrStepOut struct {
 }
 
 type hrPathOut struct {
-	BuildUs int64       `json:"build_us"`
-	RunUs   int64       `json:"run_us"`
 	ID      int         `json:"id"`
 	InitObs hrObs       `json:"init_obs"`
 	Steps   []hrStepOut `json:"steps"`
@@ -402,8 +400,8 @@ func (k *hrWorker) build(sc int) (*hrEnv, error) {
 	}
 	e := &hrEnv{k: k, sc: sc, scen: scen, g: g, b: bs.(*blockHeaderStore), f: fs.(*filterHeaderStore),
 		state: map[string]string{"R": "idle", "W": "idle"}, gid: map[string]string{},
-		cmd:  map[string]chan hrAct{"R": make(chan hrAct), "W": make(chan hrAct)},
-		cur:  map[string]hrAct{}, last: map[string]hrEv{}}
+		cmd: map[string]chan hrAct{"R": make(chan hrAct), "W": make(chan hrAct)},
+		cur: map[string]hrAct{}, last: map[string]hrEv{}}
 	var bh []BlockHeader
 	for i := 1; i < scen.Lb; i++ {
 		bh = append(bh, BlockHeader{BlockHeader: k.w.hdr[i], Height: uint32(i)})
@@ -1025,14 +1023,11 @@ func hrRunPath(k *hrWorker, p hrPathIn) (out hrPathOut) {
 			out.Error = fmt.Sprintf("driver panic: %v\n%s", r, buf)
 		}
 	}()
-	t0 := time.Now()
 	e, err := k.acquire(p.InitObs.Sc)
 	if err != nil {
 		out.Error = "build: " + err.Error()
 		return
 	}
-	out.BuildUs = time.Since(t0).Microseconds()
-	defer func() { out.RunUs = time.Since(t0).Microseconds() - out.BuildUs }()
 	defer func() {
 		out.Dumps = e.dumps
 		if e.state["R"] == "blk" && e.state["W"] == "blk" {
